@@ -1,5 +1,5 @@
 """Sensitivity mutations for C07: each one breaks the implementation in the scratch repo worktree
-(NUTREE_REPO, which must be a git worktree of nutree = HEAD + fixes/SERIES.txt), runs the pinned suite and
+(NUTREE_REPO, a git worktree of nutree: either the pinned commit, then fixes/SERIES.txt is applied, or a commit that already contains the fixes), runs the pinned suite and
 `bin/check C07 --tier quick`, prints the VIOLATION line, and restores the worktree.
 
     NUTREE_REPO=<scratch worktree> python harness/sens_c07.py [mutation names...]
@@ -157,7 +157,10 @@ def m11():
             child, before=next_node, deep=None if not isinstance(child, Node) else deep, data_id=data_id, node_id=node_id
         )""")
 def reset():
-    cmd = f"cd {REPO} && git checkout -- . && for d in $(cat {HERE}/fixes/SERIES.txt); do git apply {HERE}/fixes/$d.diff || echo FAIL $d; done"
+    """worktree = HEAD (+ the fix series when HEAD is the pinned commit, i.e. when the first fix still applies)"""
+    first = open(f"{HERE}/fixes/SERIES.txt").read().split()[0]
+    cmd = (f"cd {REPO} && git checkout -q -- . && if git apply --check {HERE}/fixes/{first}.diff 2>/dev/null; then "
+           f"for d in $(cat {HERE}/fixes/SERIES.txt); do git apply {HERE}/fixes/$d.diff || echo FAIL $d; done; fi")
     subprocess.run(cmd, shell=True, check=True, capture_output=True)
 def suite():
     r=subprocess.run('cd %s && env -u MAR10_NUTREE_VERIF /venv/bin/python -m pytest -p no:cacheprovider --no-cov 2>&1 | grep -iE "[0-9]+ passed" | tail -1'%REPO,shell=True,capture_output=True,text=True)
